@@ -114,6 +114,10 @@ impl<'a, K, V> IndexEntry<'a, K, V> {
 //@ITEM file=metrics-util/src/key.rs sel=struct CompositeKey
 //@END
 impl CompositeKey {
+//@ITEM file=metrics-util/src/key.rs sel=impl CompositeKey :: fn new ret=r
+//@SPEC
+    ensures r == CompositeKey(kind, key),
+//@END
 //@ITEM file=metrics-util/src/key.rs sel=impl CompositeKey :: fn key ret=r
 //@SPEC
     ensures *r == self.1,
@@ -143,13 +147,63 @@ impl AtomicCell {
     #[verifier::external_body] pub fn load(&self, o: Ordering) -> (r: u64) ensures r == self.now() { unimplemented!() }
 }
 #[verifier::external_body] pub struct Bucket { _p: [u8; 0] }
+impl Bucket {
+    /// nothing pushed since the last clear (C05's subject)
+    #[verifier::external_body] pub fn is_empty(&self) -> (r: bool) ensures r == (pending(self).len() == 0) { unimplemented!() }
+}
+/// metrics::{Counter, Gauge, Histogram}: a handle is identified by the storage cell behind it
+#[verifier::external_body] pub struct Counter { _p: [u8; 0] }
+#[verifier::external_body] pub struct Gauge { _p: [u8; 0] }
+#[verifier::external_body] pub struct Histogram { _p: [u8; 0] }
+#[verifier::external_body] pub struct Metadata<'a> { _p: std::marker::PhantomData<&'a u8> }
+impl Counter {
+    pub uninterp spec fn cell(&self) -> Arc<AtomicCell>;
+    #[verifier::external_body] pub fn from_arc(a: Arc<AtomicCell>) -> (r: Counter) ensures r.cell() == a { unimplemented!() }
+}
+impl Gauge {
+    pub uninterp spec fn cell(&self) -> Arc<AtomicCell>;
+    #[verifier::external_body] pub fn from_arc(a: Arc<AtomicCell>) -> (r: Gauge) ensures r.cell() == a { unimplemented!() }
+}
+impl Histogram {
+    pub uninterp spec fn cell(&self) -> Arc<Bucket>;
+    #[verifier::external_body] pub fn from_arc(a: Arc<Bucket>) -> (r: Histogram) ensures r.cell() == a { unimplemented!() }
+}
 impl<S> Registry<Key, S> {
+    /// THE storage of (kind, key) in this registry (C06's contract: one per kind and key; counters and gauges never share)
+    pub uninterp spec fn counter_storage(&self, key: Key) -> Arc<AtomicCell>;
+    pub uninterp spec fn gauge_storage(&self, key: Key) -> Arc<AtomicCell>;
+    pub uninterp spec fn histogram_storage(&self, key: Key) -> Arc<Bucket>;
+    #[verifier::external_body]
+    pub fn get_or_create_counter<O, V>(&self, key: &Key, op: O) -> (v: V) where O: FnOnce(&Arc<AtomicCell>) -> V
+        requires forall|c: &Arc<AtomicCell>| op.requires((c,)),
+        ensures exists|c: &Arc<AtomicCell>| *c == self.counter_storage(*key) && #[trigger] op.ensures((c,), v),
+    { unimplemented!() }
+    #[verifier::external_body]
+    pub fn get_or_create_gauge<O, V>(&self, key: &Key, op: O) -> (v: V) where O: FnOnce(&Arc<AtomicCell>) -> V
+        requires forall|c: &Arc<AtomicCell>| op.requires((c,)),
+        ensures exists|c: &Arc<AtomicCell>| *c == self.gauge_storage(*key) && #[trigger] op.ensures((c,), v),
+    { unimplemented!() }
+    #[verifier::external_body]
+    pub fn get_or_create_histogram<O, V>(&self, key: &Key, op: O) -> (v: V) where O: FnOnce(&Arc<Bucket>) -> V
+        requires forall|c: &Arc<Bucket>| op.requires((c,)),
+        ensures exists|c: &Arc<Bucket>| *c == self.histogram_storage(*key) && #[trigger] op.ensures((c,), v),
+    { unimplemented!() }
+    #[verifier::external_body]
+    pub fn get_counter(&self, key: &Key) -> (r: Option<Arc<AtomicCell>>) ensures r is Some ==> r->Some_0 == self.counter_storage(*key) { unimplemented!() }
+    #[verifier::external_body]
+    pub fn get_gauge(&self, key: &Key) -> (r: Option<Arc<AtomicCell>>) ensures r is Some ==> r->Some_0 == self.gauge_storage(*key) { unimplemented!() }
+    #[verifier::external_body]
+    pub fn get_histogram(&self, key: &Key) -> (r: Option<Arc<Bucket>>) ensures r is Some ==> r->Some_0 == self.histogram_storage(*key) { unimplemented!() }
+
     #[verifier::external_body] pub fn get_counter_handles(&self) -> HashMap<Key, Arc<AtomicCell>> { unimplemented!() }
     #[verifier::external_body] pub fn get_gauge_handles(&self) -> HashMap<Key, Arc<AtomicCell>> { unimplemented!() }
     #[verifier::external_body] pub fn get_histogram_handles(&self) -> HashMap<Key, Arc<Bucket>> { unimplemented!() }
 }
 impl Key {
     #[verifier::external_body] pub fn name(&self) -> &str { unimplemented!() }
+}
+impl Clone for Key {
+    #[verifier::external_body] fn clone(&self) -> (r: Self) ensures r == *self { unimplemented!() }
 }
 impl KeyName {
     #[verifier::external_body] pub fn from(s: String) -> KeyName { unimplemented!() }
@@ -262,7 +316,10 @@ impl DebuggingRecorder {
         }
 //@END
 
+    pub uninterp spec fn may_track(&self, ck: CompositeKey) -> bool;
 //@ITEM file=metrics-util/src/debugging.rs sel=impl DebuggingRecorder :: fn track_metric
+//@SPEC
+    requires self.may_track(ckey),      // which (kind, key) the caller is entitled to track (fixed by the caller's own contract)
 //@AFTER 1 let mut seen = self.inner.seen.lock()
         let ghost s0 = *mguarded(&seen);
 //@AFTER 1 seen.insert(ckey, ());
@@ -273,6 +330,27 @@ impl DebuggingRecorder {
             assert(s0@.contains_key(ckey) ==> s1.order() == s0.order());
             assert(!s0@.contains_key(ckey) ==> s1.order() == s0.order().push(ckey));
         }
+//@END
+
+// `impl Recorder for DebuggingRecorder :: register_*` verified as inherent methods: the handle handed out is backed by THIS kind's
+// storage for the key, and the key is tracked under THIS kind (obligation at the tracking call)
+//@ITEM file=metrics-util/src/debugging.rs sel=impl Recorder for DebuggingRecorder :: fn register_counter ret=r
+//@REWRITE SPEC-closure re:\|(\w+)\| Counter::from_arc\(\1\.clone\(\)\) ==> |\1: &Arc<AtomicCell>| -> (out: Counter) ensures out.cell() == *\1 { Counter::from_arc(\1.clone()) }
+//@SPEC
+    requires forall|ck: CompositeKey| #[trigger] self.may_track(ck) <==> ck == CompositeKey(MetricKind::Counter, *key),
+    ensures r.cell() == self.inner.registry.counter_storage(*key),
+//@END
+//@ITEM file=metrics-util/src/debugging.rs sel=impl Recorder for DebuggingRecorder :: fn register_gauge ret=r
+//@REWRITE SPEC-closure re:\|(\w+)\| Gauge::from_arc\(\1\.clone\(\)\) ==> |\1: &Arc<AtomicCell>| -> (out: Gauge) ensures out.cell() == *\1 { Gauge::from_arc(\1.clone()) }
+//@SPEC
+    requires forall|ck: CompositeKey| #[trigger] self.may_track(ck) <==> ck == CompositeKey(MetricKind::Gauge, *key),
+    ensures r.cell() == self.inner.registry.gauge_storage(*key),
+//@END
+//@ITEM file=metrics-util/src/debugging.rs sel=impl Recorder for DebuggingRecorder :: fn register_histogram ret=r
+//@REWRITE SPEC-closure re:\|(\w+)\| Histogram::from_arc\(\1\.clone\(\)\) ==> |\1: &Arc<Bucket>| -> (out: Histogram) ensures out.cell() == *\1 { Histogram::from_arc(\1.clone()) }
+//@SPEC
+    requires forall|ck: CompositeKey| #[trigger] self.may_track(ck) <==> ck == CompositeKey(MetricKind::Histogram, *key),
+    ensures r.cell() == self.inner.registry.histogram_storage(*key),
 //@END
 }
 
